@@ -451,6 +451,9 @@ def check_path_writable(path: str) -> bool:
     try:
         if path.endswith("\\") or path.endswith("/"):
             path = os.path.join(path, ".torrent")
+        # probe the place the path leads to: a dangling symbolic link is
+        # neither followed into creating its target nor removed afterwards
+        path = os.path.realpath(path)
         existed = os.path.exists(path)
         with open(path, "ab") as _:
             pass
